@@ -25,7 +25,7 @@ META = {
         'is_in_window assigns a polygon index only to still-unassigned points, polygons ascending; C12.CAP-SIGN - '
         'is_in_cap is cap_distance >= 0 and cap_distance is negated exactly when cm < 0; C12.CAP-BIT - is_cap_used '
         'tests bit i, the same bit set_use_caps sets and the presets (1 << ncaps) - 1 cover; C12.DOUBLES - a duplicate '
-        'cap bit j > i is cleared only after re-testing that it is currently set (or idempotently). C12.DUP-SYM - both duplicate tests of set_use_caps are two-sided (absolute value); C12.DUP-COND - the condition under which a later cap is dropped equals same-cap OR (complement AND NOT allow_neg_doubles), decided by truth table over the three facts. C12.ONE-CAP - is_in_polygon normalises the rank of XCAPS / CMCAPS of a raw FITS row the way ManglePolygon.__init__ does for rows with a single cap; NOT decided: the '
+        'cap bit j > i is cleared only after re-testing that it is currently set (or idempotently). C12.DUP-SYM - both duplicate tests of set_use_caps are two-sided (absolute value); C12.DUP-COND - the condition under which a later cap is dropped equals same-cap OR (complement AND NOT allow_neg_doubles), decided by truth table over the three facts. C12.ONE-CAP - is_in_polygon normalises the rank of XCAPS / CMCAPS of a raw FITS row the way ManglePolygon.__init__ does for rows with a single cap; C12.NUMFMT - when read_mangle_polygons picks the numbers of a line with a regular expression, the pattern matches numbers in exponent notation as a whole (zero instances while the words are split on white space and handed to float()); NOT decided: the '
         'floating-point geometry itself, agreement across concrete files.'),
     'floors': {'C12.ONE-CAP': 2, 'C12.COLUMNS': 3, 'C12.SLICES': 5, 'C12.ELEM-INDEX': 1, 'C12.ACOS-DOT': 1, 'C12.AND-ALL': 7, 'C12.CAP-SIGN': 2,
                'C12.CAP-BIT': 4, 'C12.DOUBLES': 2, 'C12.DUP-COND': 1, 'C12.DUP-SYM': 2},
@@ -212,6 +212,50 @@ def check_slices(ctx, repo):
                       'window_read: balkans.%s <- blist.%s' % (st.targets[0].slice.value, want),
                       msg='window_read fills balkans column %s from %s, expected blist column %s' % (st.targets[0].slice.value, src(st.value), want),
                       construct='column copy ' + src(st)[:80])
+
+
+def check_numfmt(ctx, repo):
+    """C12.NUMFMT: the numbers of a Mangle polygon file are whatever float() reads (mangle writes %.15g, i.e. exponents for small cap
+    sizes).  read_mangle_polygons splits a line on white space and hands every word to float().  A reader that instead PICKS the numbers
+    with a regular expression must pick whole numbers: the pattern has to match `1.5e-05`, `-2E+10`, `.5` and `3.` completely."""
+    import re as _re
+    f = repo.func(MANGLE, 'read_mangle_polygons')
+    fa = FA(f)
+    pats = {}
+    for c in walk_local(f.node):
+        if isinstance(c, ast.Call) and isinstance(c.func, ast.Attribute) and c.func.attr in ('compile', 'findall', 'finditer') \
+                and isinstance(c.func.value, ast.Name) and c.func.value.id == 're' and c.args and isinstance(c.args[0], ast.Constant) and isinstance(c.args[0].value, str):
+            pats[id(c)] = (c, c.args[0].value)
+    floats = [c for c in walk_local(f.node) if isinstance(c, ast.Call) and isinstance(c.func, ast.Name) and c.func.id == 'float' and c.args]
+    ctx.need(floats, 'read_mangle_polygons: float() conversions not found')
+    n = 0
+    for fc in floats:
+        # where do the converted words come from?  (the iterable of the enclosing comprehension / loop)
+        comp = next((a for a in ancestors(fc) if isinstance(a, (ast.ListComp, ast.GeneratorExp))), None)
+        it = comp.generators[0].iter if comp is not None else None
+        src_call = fa.deep(it) if it is not None else None
+        if not (isinstance(src_call, ast.Call) and isinstance(src_call.func, ast.Attribute) and src_call.func.attr in ('findall', 'finditer')):
+            continue
+        pat = None
+        if isinstance(src_call.func.value, ast.Name) and src_call.func.value.id == 're' and src_call.args and isinstance(src_call.args[0], ast.Constant):
+            pat = src_call.args[0].value
+        else:
+            v = fa.deep(src_call.func.value)
+            if isinstance(v, ast.Call) and v.args and isinstance(v.args[0], ast.Constant) and isinstance(v.args[0].value, str):
+                pat = v.args[0].value
+        if not isinstance(pat, str):
+            raise AnalysisError('C12: read_mangle_polygons picks its numbers with a pattern this checker cannot read (`%s`)' % src(src_call)[:60])
+        n += 1
+        try:
+            rx_ = _re.compile(pat)
+        except _re.error as e:
+            raise AnalysisError('C12: pattern %r does not compile: %s' % (pat, e))
+        samples = ['1.5e-05', '-2E+10', '0.25', '-1', '3.', '.5', '1e3']
+        bad = [w for w in samples if [m.group(0) for m in rx_.finditer(w)] != [w]]
+        ctx.check('C12.NUMFMT', not bad, f, src_call, 'the pattern %r picks whole numbers, exponent part included' % pat,
+                  msg='read_mangle_polygons picks the numbers of a line with the pattern %r, which does not match %s as one number: a cap size or weight written '
+                      'in exponent notation (mangle writes %%.15g) is split in two and every following value is shifted' % (pat, bad), construct='number pattern %r' % pat)
+    ctx.notes['numfmt_patterns'] = n
 
 
 def check_set_use_caps(ctx, repo):
@@ -700,6 +744,7 @@ def run(ctx):
     check_memo_keys(ctx, ctx.repo, MANGLE, 'ManglePolygon', 'C12.MEMO-KEY')
     repo = ctx.repo
     check_columns(ctx, repo)
+    check_numfmt(ctx, repo)
     check_slices(ctx, repo)
     check_set_use_caps(ctx, repo)
     check_acos(ctx, repo)
